@@ -49,15 +49,23 @@ pub open spec fn one_attr(a: Seq<u8>, b: Seq<u8>) -> bool {
 // b consists of exactly n attribute_info structures
 #[verifier::opaque]
 pub open spec fn attrs_seq(b: Seq<u8>, n: nat) -> bool decreases n {
-    if n == 0 { b.len() == 0 } else { exists|k: int| 0 <= k <= b.len() && #[trigger] attrs_seq(b.subrange(0, k), (n - 1) as nat) && one_attr(b.subrange(0, k), b) }
+    if n == 0 { b.len() == 0 } else { exists|k: int| #[trigger] cut(k) && 0 <= k <= b.len() && attrs_seq(b.subrange(0, k), (n - 1) as nat) && one_attr(b.subrange(0, k), b) }
 }
+// the position where the last attribute_info starts; only a trigger (a recursive call inside the quantifier is matched in its fuel form, which a proof cannot name)
+pub open spec fn cut(k: int) -> bool { true }
 pub proof fn lemma_attrs_step(a: Seq<u8>, b: Seq<u8>, n: nat)
     requires attrs_seq(a, n), one_attr(a, b)
     ensures attrs_seq(b, n + 1)
 {
     reveal_with_fuel(attrs_seq, 2); reveal(one_attr);
-    assert(b.subrange(0, a.len() as int) == a);
-    assert(attrs_seq(b.subrange(0, a.len() as int), n));
+    let k = a.len() as int;
+    assert(0 <= k <= b.len());
+    assert(b.subrange(0, k) =~= a);
+    assert(cut(k));
+    assert(attrs_seq(b.subrange(0, k), n));
+    assert(one_attr(b.subrange(0, k), b));
+    assert(((n + 1) - 1) as nat == n);
+    assert(attrs_seq(b.subrange(0, k), ((n + 1) - 1) as nat));
 }
 // the header write_attribute_fix_length appended (a -> h) and the n bytes that followed (h -> b)
 pub proof fn lemma_fix_attr(a: Seq<u8>, idx: u16, n: u32, b: Seq<u8>)
@@ -70,6 +78,9 @@ pub proof fn lemma_fix_attr(a: Seq<u8>, idx: u16, n: u32, b: Seq<u8>)
     assert(b.subrange(0, m) =~= a) by { assert(b.subrange(0, m) =~= b.subrange(0, m + 6).subrange(0, m)); }
     assert(b.subrange(m + 2, m + 6) =~= be32(n)) by { assert(b.subrange(m + 2, m + 6) =~= b.subrange(0, m + 6).subrange(m + 2, m + 6)); }
 }
+// some of the first k local variables carries a descriptor (-> LocalVariableTable) / a signature (-> LocalVariableTypeTable)
+pub open spec fn has_descriptor(l: Seq<Lv>, k: int) -> bool { exists|j: int| 0 <= j < k && j < l.len() && (#[trigger] l[j]).descriptor is Some }
+pub open spec fn has_signature(l: Seq<Lv>, k: int) -> bool { exists|j: int| 0 <= j < k && j < l.len() && (#[trigger] l[j]).signature is Some }
 pub proof fn lemma_attrs_empty() ensures attrs_seq(Seq::<u8>::empty(), 0) { reveal_with_fuel(attrs_seq, 1); }
 // TRUSTED: write_attribute_any carries the contract that unit wattrs proves for write_attribute with an arbitrary closure (the closure argument of the call site is dropped)
 #[verifier::external_body]
@@ -214,6 +225,20 @@ def build(u):
     build_regions(u)
 
 
+# "denoting exactly the given class": an attribute is emitted exactly when the tree holds the fact it carries.  Written from the tree types (duke/src/tree) and JVMS 4.7,
+# not from the writer's conditions: (attribute constant) -> condition over the item `{v}`; attributes absent here (BootstrapMethods: collected by the pool) carry no such clause.
+EMITTED_IFF = {
+    'CONSTANT_VALUE': '{v}.constant_value is Some', 'SIGNATURE': '{v}.signature is Some', 'DEPRECATED': '{v}.has_deprecated_attribute', 'SYNTHETIC': '{v}.has_synthetic_attribute',
+    'RUNTIME_VISIBLE_ANNOTATIONS': '{v}.runtime_visible_annotations@.len() > 0', 'RUNTIME_INVISIBLE_ANNOTATIONS': '{v}.runtime_invisible_annotations@.len() > 0',
+    'RUNTIME_VISIBLE_TYPE_ANNOTATIONS': '{v}.runtime_visible_type_annotations@.len() > 0', 'RUNTIME_INVISIBLE_TYPE_ANNOTATIONS': '{v}.runtime_invisible_type_annotations@.len() > 0',
+    'CODE': '{v}.code is Some', 'EXCEPTIONS': '{v}.exceptions is Some', 'ANNOTATION_DEFAULT': '{v}.annotation_default is Some', 'METHOD_PARAMETERS': '{v}.method_parameters is Some',
+    'INNER_CLASSES': '{v}.inner_classes is Some', 'ENCLOSING_METHOD': '{v}.enclosing_method is Some', 'SOURCE_FILE': '{v}.source_file is Some', 'SOURCE_DEBUG_EXTENSION': '{v}.source_debug_extension is Some',
+    'MODULE': '{v}.module is Some', 'MODULE_PACKAGES': '{v}.module_packages is Some', 'MODULE_MAIN_CLASS': '{v}.module_main_class is Some', 'NEST_HOST': '{v}.nest_host_class is Some',
+    'NEST_MEMBERS': '{v}.nest_members is Some', 'PERMITTED_SUBCLASSES': '{v}.permitted_subclasses is Some', 'RECORD': '{v}.record_components@.len() > 0',
+    'LINE_NUMBER_TABLE': '{v}.line_numbers is Some',
+    'LOCAL_VARIABLE_TABLE': '({v}.local_variables matches Some(l_) && has_descriptor(l_@, l_@.len() as int))',
+    'LOCAL_VARIABLE_TYPE_TABLE': '({v}.local_variables matches Some(l_) && has_signature(l_@, l_@.len() as int))',
+}
 VAR_TYPE = dict(field='Field', method='Method', record_component='RecordComponent', code='Code', **{'class': 'ClassFile'})
 
 
@@ -269,13 +294,20 @@ def lift_blocks(u, fn, var, base_line, block_requires, block_loops):
             for pat, spec in (block_loops or {}).items():
                 if re.search(pat, btxt):
                     loops[pat] = spec
+            emitted = re.findall(r'write_attribute(?:_any|_fix_length)\(buffer, pool, attribute::([A-Z_0-9]+)\(\)', btxt)
+            extra = []
+            if emitted and all(a in EMITTED_IFF for a in emitted):
+                total = ' + '.join('(if ' + EMITTED_IFF[a].format(v=var) + ' { 1int } else { 0int })' for a in emitted)
+                extra = [C(f'C02.{fn}.block{k}.{"-and-".join(emitted)}.emitted-exactly-when-the-tree-holds-it', f'res.is_ok() ==> *final(attribute_count) - *old(attribute_count) == {total}')]
+            else:
+                u.drop(f'fn {fn}: block {k} emits {emitted or "?"}: no emitted-iff clause (not in the table)')
             u.fn(W, f'{fn}::{name}', ret='res',
                  synth=dict(sig=f'pub fn {name}(buffer: &mut Vec<u8>, pool: &mut PoolWrite, {var}: &{VAR_TYPE[var]}, attribute_count: &mut usize) -> Result<()>',
                             body='{ ' + btxt + ' Ok(()) }', line=base_line + body.count('\n', 0, st)),
                  requires=['attrs_seq(old(buffer)@, *old(attribute_count) as nat)', '*old(attribute_count) <= 1000'] + list(block_requires),
                  loops=loops,
                  ensures=[C(f'C02.{fn}.block{k}.count-and-buffer-stay-in-step',
-                            'res.is_ok() ==> attrs_seq(final(buffer)@, *final(attribute_count) as nat) && *old(attribute_count) <= *final(attribute_count) <= *old(attribute_count) + 2')])
+                            'res.is_ok() ==> attrs_seq(final(buffer)@, *final(attribute_count) as nat) && *old(attribute_count) <= *final(attribute_count) <= *old(attribute_count) + 2')] + extra)
             nl = '\n' * txt.count('\n')
             out = out[:st] + f'{name}(&mut buffer, pool, {var}, &mut attribute_count)?;' + nl + out[en:]
             k -= 1
@@ -327,7 +359,9 @@ def build_regions(u):
             block_requires=['code.local_variables matches Some(l) ==> l@.len() < 0x1_0000_0000'],
             extra_rewrites=[(r'for lv in local_variables\b', 'for lv in iter: local_variables')],
             block_loops={r'for lv in iter: local_variables': dict(invariant=[
-                C('C02.write_code_attributes.inv.counting', 'desc <= iter.index@ && sign <= iter.index@ && iter.snapshot@.remaining().len() == local_variables@.len() && local_variables@.len() < 0x1_0000_0000 && attrs_seq(buffer@, *attribute_count as nat) && *attribute_count == *old(attribute_count) && buffer@ == old(buffer)@')])})
+                C('C02.write_code_attributes.inv.counting', 'desc <= iter.index@ && sign <= iter.index@ && iter.snapshot@.remaining().len() == local_variables@.len() && local_variables@.len() < 0x1_0000_0000 && attrs_seq(buffer@, *attribute_count as nat) && *attribute_count == *old(attribute_count) && buffer@ == old(buffer)@ '
+                  '&& (desc > 0) == has_descriptor(local_variables@, iter.index@ as int) && (sign > 0) == has_signature(local_variables@, iter.index@ as int)')],
+                body_start='proof { assert(lv == local_variables@[iter.index@ as int]); }')})
     f = s.cut_fn('write')
     body, mask = f['body'], code_mask(f['body'])
     m = re.search(r'let\s+mut\s+attribute_count\s*=\s*0\s*;', mask)
